@@ -5,6 +5,7 @@
   /chunked            200, chunked transfer encoding, complete body
   /cl_cut/<k>         200, Content-Length of the full body, connection closed after k body bytes
   /chunk_cut/<k>      200, chunked, connection closed after k body bytes (no terminating chunk)
+  /hdr_cut/<k>        200, connection closed after k bytes of the status line and headers
   /status/<code>      that status with a small body (3xx carry a Location header)
   /stall/<ms>         headers and half the body, then silence for <ms> milliseconds
   /stall_headers/<ms> nothing at all for <ms> milliseconds
@@ -92,6 +93,9 @@ class FaultServer:
                 conn.sendall(hdr_ch + chunks(body) + b"0\r\n\r\n")
             elif kind == "cl_cut":
                 conn.sendall(hdr_cl + body[:arg])
+            elif kind == "hdr_cut":
+                # the connection closes inside the response headers (after <arg> bytes of status line + headers)
+                conn.sendall((hdr_cl + body)[:arg])
             elif kind == "chunk_cut":
                 conn.sendall(hdr_ch + chunks(body[:arg]))
             elif kind == "status":
